@@ -88,6 +88,8 @@ type e2 struct {
 	deleted       bool // CloseAndDelete was called by a client
 	dropped       map[int]bool
 	probeCas      map[int]uint64 // collection -> CAS of the probe write made after the run
+	feedsAtStart  int32
+	termSeq       map[string]int64 // feed id -> event counter when its terminator watcher had closed the queue
 }
 
 func (e *e2) logf(format string, args ...any) {
@@ -156,6 +158,7 @@ func (e *e2) noteHook(name, detail string, n uint64, t *Task, gid uint64) {
 func (e *e2) run() {
 	p := e.p
 	start := time.Now()
+	e.feedsAtStart = rosmar.VerifActiveFeeds() // (goroutines leaked by an earlier run of this process are not this run's)
 	rosmar.VerifResetProcess()
 	rosmar.MaxDocSize = 20 * 1024 * 1024
 	if p.MaxDoc > 0 {
@@ -172,6 +175,15 @@ func (e *e2) run() {
 	e.s = s
 	s.traceOn = true
 	s.notes = e.noteHook
+	e.termSeq = map[string]int64{}
+	s.onPoint = func(name, detail string) {
+		if name == "feed.term" {
+			// the watcher goroutine has been released: it closes the feed's queue right now
+			e.mu.Lock()
+			e.termSeq[detail] = e.seq.Add(1)
+			e.mu.Unlock()
+		}
+	}
 	if p.Strategy != "" {
 		s.SetStrategy(p.Strategy, p.StratArg)
 	}
@@ -305,8 +317,8 @@ func (e *e2) run() {
 	}
 	synctest.Wait()
 	e.afterShutdown()
-	if n := rosmar.VerifActiveFeeds(); n != 0 && e.res.Violation == nil {
-		e.violate([]string{"C16", "C20"}, "leak.feed", "%d feed goroutine(s) still running after every feed was stopped and the bucket deleted", n)
+	if n := rosmar.VerifActiveFeeds() - e.feedsAtStart; n > 0 && e.res.Violation == nil {
+		e.violate([]string{"C16", "C20"}, "leak.feed", "%d feed goroutine(s) of this run still running after every feed was stopped and the bucket deleted", n)
 	}
 }
 
@@ -667,6 +679,12 @@ func (e *e2) judgeLinearizable(hist []*HistEntry) {
 				b.WriteString("\n    " + h.String())
 			}
 			tags := []string{"C03"}
+			if strings.HasPrefix(e.p.Scenario, "subdoc") {
+				tags = append(tags, "C18") // read-modify-write of a property not equivalent to an atomic one
+			}
+			if e.p.Scenario == "rev-race" {
+				tags = append(tags, "C17") // the model state includes the revision number and the final $document
+			}
 			e.violate(tags, oracle, "the history of key %q (collection %d, initial state %s) has no linearization consistent with the document model:%s", kh.key, kh.coll, init, b.String())
 			return
 		default:
